@@ -152,7 +152,8 @@ class World:
             self.loop.call_soon(job.run)
 
     # -- driver operations -------------------------------------------------------
-    def op(self, thread: str, name: str, coro_fn: Callable[[], Any], record: bool = True) -> dict:
+    def op(self, thread: str, name: str, coro_fn: Callable[[], Any], record: bool = True,
+           guard: Optional[Callable[[], bool]] = None) -> dict:
         """Queues a user-level operation: a task started by the environment once
         the previous operation of the same driver thread has returned.  Returns a
         dict that receives ``result`` / ``exc`` / ``t_call`` / ``t_ret``"""
@@ -190,10 +191,14 @@ class World:
         def fire():
             slot['task'] = self.loop.create_task(body(), name=f'driver-{thread}-{name}')
 
-        def guard():
+        extra_guard = guard
+
+        def op_guard():
+            if extra_guard is not None and not extra_guard():
+                return False
             return prev is None or prev['state'] in ('done', 'cancelled')
 
-        slot['event'] = self.post(EnvEvent('op', f'op:{thread}:{name}', fire, chan=f'driver:{thread}', guard=guard))
+        slot['event'] = self.post(EnvEvent('op', f'op:{thread}:{name}', fire, chan=f'driver:{thread}', guard=op_guard))
         return slot
 
     # -- the pump ------------------------------------------------------------------
